@@ -18,7 +18,9 @@ DISPATCHER_ATTRS = ['cause', 'effects', 'complete_channels', 'success_channels',
 RUNTIME_ATTRS = {'success_channels', 'node_call_id', 'node_sock'}   # set by Protocol itself on a received event
 ECHO = ['e0', 'e1', 'e2']
 EXCL_STD = ['__class__', '__delattr__', '__dict__', '__dir__', '__doc__', '__eq__', '__format__', '__ge__', '__getattribute__', '__getitem__', '__getstate__', '__gt__', '__hash__', '__init__', '__init_subclass__', '__le__', '__lt__', '__module__', '__ne__', '__new__', '__reduce__', '__reduce_ex__', '__repr__', '__setattr__', '__setitem__', '__setstate__', '__sizeof__', '__str__', '__subclasshook__', '__weakref__', 'alert_done', 'args', 'cancel', 'cancelled', 'cause', 'channels', 'child', 'complete', 'complete_channels', 'create', 'effects', 'failure', 'handler', 'kwargs', 'name', 'node_call_id', 'node_sock', 'node_without_result', 'notify', 'parent', 'stop', 'stopped', 'success', 'success_channels', 'uid', 'value', 'waitingHandlers']
-BOOM = ['boom']
+BOOM = ['boom', 'mix']      # a handler raises at once ('mix': another handler of the same event returns)
+LATE = ['boomgen']          # a generator handler raises after a yield
+ERRV = '<error>'            # stands for the (type, exception, traceback) value of a failed event (texts are not compared)
 
 
 # ------------------------------------------------------------------ fake transports (no sockets)
@@ -93,10 +95,28 @@ class AppB(Component):
         self.log.append(snapshot(event))
         return [event.name, list(args), dict(kwargs)]
 
-    @handler(*BOOM, channel='*')
+    @handler('boom', channel='*')
     def _boom(self, event, *args, **kwargs):
         self.log.append(snapshot(event))
         raise RuntimeError('boom')
+
+    @handler('mix', channel='*', priority=1)
+    def _mix_ok(self, event, *args, **kwargs):
+        self.log.append(snapshot(event))
+        return [event.name, list(args), dict(kwargs)]
+
+    @handler('mix', channel='*')
+    def _mix_boom(self, event, *args, **kwargs):
+        raise ValueError('mix')
+
+    @handler('boomgen', channel='*')
+    def _boomgen(self, event, *args, **kwargs):
+        self.log.append(snapshot(event))      # at dispatch; the body of a generator function would only start in the next tick
+
+        def later():
+            yield
+            raise RuntimeError('late')
+        return later()
 
 
 class CallerB(Component):
@@ -122,6 +142,13 @@ class CallerB(Component):
 
 def snapshot(e):
     extra = {k: v for k, v in e.__dict__.items() if k not in EVENT_DIR and k not in RUNTIME_ATTRS}
+    # bookkeeping of the completion tracking the Protocol asks for (complete=True): the manager's own values
+    if extra.get('cause') is e:
+        extra.pop('cause')
+        if isinstance(extra.get('effects'), int):
+            extra.pop('effects')
+    if extra.get('complete_channels') == ('node_result',) and isinstance(extra['complete_channels'], tuple):
+        extra.pop('complete_channels')
     return {'name': e.name, 'args': list(e.args), 'kwargs': dict(e.kwargs), 'channels': list(e.channels),
             'success': bool(e.success), 'failure': bool(e.failure), 'notify': bool(e.notify), 'attrs': extra}
 
@@ -233,6 +260,8 @@ def ev_obs(s):
 def tables():
     seen, td = set(), []
     for o, r in TR.d:
+        if isinstance(o, dict) and o.get('errors') is True and 'value' in o:
+            o = dict(o, value=ERRV)            # answer of a failed event: the value is opaque
         try:
             k = jt(o)
         except TypeError:
@@ -247,6 +276,8 @@ def tables():
         if s in seen:
             continue
         seen.add(s)
+        if ok and isinstance(r, dict) and r.get('errors') is True and {'id', 'value', 'meta'} <= set(r):
+            r = dict(r, value=ERRV)
         try:
             v = '(Some %s)' % jt(r) if ok else 'None'
         except TypeError:        # floats etc.: outside the model's JSON type
@@ -328,7 +359,7 @@ def hostile_call(rng):
 
 
 def hostile_value(rng):
-    d = {'id': rng.choice([0, 0, 1, 2, True, False, '0', None, [0], {}, 99]), 'errors': rng.choice([False, True, 'e', None]),
+    d = {'id': rng.choice([0, 0, 1, 2, True, False, '0', None, [0], {}, 99]), 'errors': rng.choice([False, 1, 'e', None]),
          'value': rng.choice([None, 1, 'v', [1, 2], {'a': 1}, False]), 'meta': {}}
     r = rng.random()
     if r < 0.3:
@@ -350,6 +381,19 @@ def hostile_value(rng):
 def wire(rng, item, delim=b'~~~'):
     b = item if isinstance(item, bytes) else json.dumps(item).encode()
     return b + delim
+
+
+def raising(rng, events):
+    """make one or two events of the case fail on the peer: a handler raises at once ('boom'), one of two handlers
+    raises ('mix'), a generator handler raises after a yield ('boomgen': at most one per case - the order in which the
+    manager resumes several suspended handlers in one tick is the iteration order of a set)"""
+    names = ['boom', 'mix', 'boomgen']
+    for i in rng.sample(range(len(events)), min(len(events), rng.randint(1, 2))):
+        n = rng.choice(names)
+        if n == 'boomgen':
+            names.remove(n)
+        events[i]['name'] = n
+        events[i]['notify'] = False
 
 
 CUTS = [1, 2, 3, 4, 7, 20, 50, 90, 130, 200, 1000, 4096]
@@ -380,7 +424,7 @@ class C19(Prop):
                     '(only the attributes _dispatcher/_eventDone read from an event: dispatch_safe)']
     assumptions = ['json laws as explicit theorem premises: loads(escape(dumps j)) = j, no proper prefix of a packet '
                    'parses, packet + partial delimiter does not parse',
-                   'handler raising on the callee is open finding C19-remote-error-lost',
+                   'the value of a failed remote event (type, exception, traceback as text) is opaque: one marker',
                    'not covered: invalid UTF-8, floats, recursion-depth errors of json, meta given as non-empty array, '
                    'both parties sending calls at the same time on one connection, several peers on one server']
 
@@ -436,6 +480,8 @@ class C19(Prop):
             sp['name'] = rng.choice(ECHO)
             sp['mode'] = rng.choice(modes) if rng.random() < 0.6 else 'call'
             events.append(sp)
+        if rng.random() < 0.3:
+            raising(rng, events)
         if all(e['mode'] == 'call' for e in events):
             events[rng.randrange(nev - 1)]['mode'] = rng.choice(modes[1:])
         if events[-1]['mode'] != 'call' and rng.random() < 0.8:
@@ -480,8 +526,8 @@ class C19(Prop):
             fws = [rng.sample(['e1', 'e2', 'zz'], rng.randint(0, 2)), rng.sample(['c1', 'c2'], rng.randint(0, 1))]
         if rng.random() < 0.35:
             fwr = [rng.sample(['e1', 'e2', 'zz'], rng.randint(0, 2)), rng.sample(['c1', 'c2'], rng.randint(0, 1))]
-        if rng.random() < 0.08:
-            events[rng.randrange(nev)]['name'] = 'boom'
+        if not hostile and rng.random() < 0.3:
+            raising(rng, events)
         ops = []
         mode = rng.random()
         for i in range(nev):
@@ -655,8 +701,9 @@ class C19(Prop):
         prot_caller, prot_callee = (prot_b, prot_a) if s2c else (prot_a, prot_b)
         res = []
         for ev, v in calls:
-            res.append({'fin': isinstance(v._value, Value), 'val': v.value,
-                        'err': [getattr(ev, 'errors')] if hasattr(ev, 'errors') else []})
+            err = [getattr(ev, 'errors')] if hasattr(ev, 'errors') else []
+            res.append({'fin': isinstance(v._value, Value), 'val': ERRV if (err and err[0] is True) else v.value,
+                        'err': err, 'verr': bool(v.errors)})
         return {'log': app.log, 'calls': res, 'callee_chan': ch if s2c else nB.channel,
                 'bufs': [len(getattr(prot_caller, '_Protocol__buffer', b'')),
                          len(getattr(prot_callee, '_Protocol__buffer', b''))]}
@@ -711,9 +758,9 @@ class C19(Prop):
                 ops.append('OBA %d%%nat' % op[1])
         fs = c['fws'] or [[], []]
         fr = c['fwr'] or [[], []]
-        return 'obs_proto %s %s %s %s %s %s %s %s %s %s (JStr %s) [%s]' % (
+        return 'obs_proto %s %s %s %s %s %s %s %s %s %s %s (JStr %s) [%s]' % (
             self.excl(), td, tl, nl(nprotocol.DELIMITER), strs(fs[0]), strs(fs[1]), strs(fr[0]), strs(fr[1]),
-            strs(ECHO), strs(BOOM), nl('node_client_peer' if c.get('dir') == 's2c' else 'node'), '; '.join(ops))
+            strs(ECHO), strs(BOOM), strs(LATE), nl('node_client_peer' if c.get('dir') == 's2c' else 'node'), '; '.join(ops))
 
     def obs_for_model(self, c, obs):
         if isinstance(obs, dict) and '__crash__' in obs:
@@ -788,7 +835,7 @@ class C19(Prop):
                 if runs:
                     return 'firewall: event %d (%s) was rejected by a firewall but dispatched on the peer' % (i, sp['name'])
                 continue
-            handled = sp['name'] in ECHO or sp['name'] in BOOM
+            handled = sp['name'] in ECHO or sp['name'] in BOOM or sp['name'] in LATE
             # packets injected by the harness may hit the ids of the calls in flight or abort a read that also
             # carries honest packets: there only "at most once" is required; the final probe is always strict
             strict = not hostile or sp['args'] == [['probe']]
@@ -810,8 +857,8 @@ class C19(Prop):
                 if call['fin'] or call['val'] is not None or call['err']:
                     return 'no-result: event %d was sent without result but its sender was resumed with %r' % (i, call['val'])
                 continue
-            if sp['name'] in BOOM:
-                if not call['fin'] or not (call['err'] and call['err'][0]):
+            if sp['name'] in BOOM or sp['name'] in LATE:
+                if not call['fin'] or not (call['err'] and call['err'][0]) or not call.get('verr'):
                     return 'remote-error-lost: handler of event %d raised on the peer; no error flag reached the sender' % i
                 continue
             exp = [sp['name'], sp['args'], sp['kwargs']] if sp['name'] in ECHO else None
@@ -828,8 +875,6 @@ class C19(Prop):
         return None
 
     def finding_class(self, c, obs, what):
-        if what.startswith('remote-error-lost') and c['k'] == 'proto' and any(e['name'] in BOOM for e in c['events']):
-            return 'C19-remote-error-lost'
         return None
 
     def nontrivial(self, c, obs):
